@@ -7,285 +7,17 @@
   matching the whole payload, or — quirk of the table: the end-anchor pseudo-character is accepted
   by a trailing wildcard — by an ONC-RPC signature less its last (wildcard) byte (`searchNextEnd_sound`).
 
-  Method: the table is a trie (every row but the dead row 1 has one parent and one incoming edge,
-  a literal byte or the wildcard).  `parent`/`edge` are annotations, Nat-encoded; the kernel checks
-  them against all 170 × 41 (row, byte class) transitions of the generated table.
+  ROBUSTNESS: no fact about the concrete table is written down here.  Both statements are corollaries
+  of the generic, annotation-driven equivalence of C10 (`C10.proto_stream_core`,
+  `C10.sim_searchNextEnd` over `C10.proto_closed`: the compiled matcher computes the shadow-aware
+  reference `Spec.refStreamK2` / `Spec.refEndK2` on all inputs; the row annotation is a witness
+  regenerated with the table and re-checked by the kernel) and of a table-independent fact about the
+  signature lists: whatever the shadow-aware reference reports is justified by `identPats`.
 -/
-import Masscanned.Model.Dispatch
+import Masscanned.Proofs.C10.Proto
 import Masscanned.Spec.Signatures
 namespace Masscanned.C12
 open Masscanned Spec
-
-/-! ### annotations -/
-
-def parentN : Nat := 0x6050a0f16151d262f363c4544ffff787c809ca8a7a6a5a4a3a2a1a09f9e85a99b9a999897969594939291908f8e8d8c8b8a8988878685848382009d7f7e02817b7a767d77767574730079706f6e6d6c6b6a696867666564636261605f5e5d5c5b5a594672565554535251504f4e4d4c4b4a494847463f58434241403f3e003e3b3a3938073d353433323100372e2d2c2b2a292800302524232221201f00271c1b1a191817001e1413121100300e0d0c0710090807000b040302000000
-def edgeN : Nat := 0x42002f002f002f0042002f002f002f002f002f002f0100004201ff01ff00300039007401000100008600010000010000000000000000000000000000000100000000000000010001000100010001000086000100000100000000000000000000000000000001000100010001000100010001000100010000730030006801000039002e00310100002e0032002d004800530053000001000000000000000004000000030000010001000100010001000100010001000100010001000100010001000100010000080000010001000100010001000100010001000100010001000100010001000100010000000000000000a40012002101000100000100000000002000480043005400410100002000450043004100520054010000200053004e004f004900540050004f00ff0020005400430045004e004e004f004300530020004500540045004c00450044004d0020004400410045004800fe002000540053004f00530020005400550050004d002000540045004700000000
-def clsByteN : Nat := 0xfe4dff867473683931302e322d04030842a412212a010052494e434c444148534f55502f2054454702
-
-/-- parent row of a trie row (rows 174, 175 — entered only on the end anchor — carry 255) -/
-def parent (r : Nat) : Nat := (parentN >>> (8 * r)) % 256
-/-- incoming edge: a byte value, or 256 = wildcard (rows 174, 175: 511) -/
-def edge (r : Nat) : Nat := (edgeN >>> (16 * r)) % 65536
-/-- the byte of a byte class 1..40 -/
-def clsByte (s : Nat) : Nat := (clsByteN >>> (8 * s)) % 256
-
-def tr (r s : Nat) : Nat := Gen.ProtoSmack.trans (r * 64 + s)
-
-def chkCls (r s : Nat) : Bool :=
-  if r = 1 then decide (tr r s = 1) else
-  decide (tr r s = 1 ∨ (2 ≤ tr r s ∧ tr r s < 189 ∧ parent (tr r s) = r ∧
-    (edge (tr r s) = 256 ∨ (s ≠ 0 ∧ edge (tr r s) = clsByte s))))
-
-theorem closureOk : ((List.range 170).all fun r => (List.range 41).all fun s => chkCls r s) = true := by
-  decide +kernel
-
-def chkByte (b : Nat) : Bool :=
-  decide (Gen.ProtoSmack.c2s b ≤ 40) && (decide (Gen.ProtoSmack.c2s b = 0) || decide (clsByte (Gen.ProtoSmack.c2s b) = b))
-
-theorem bytesOk : ((List.range 256).all chkByte) = true := by decide +kernel
-
-def chkRow (r : Nat) : Bool :=
-  if r < 170 then decide (Gen.ProtoSmack.cnt r = 0)
-  else decide (Gen.ProtoSmack.cnt r = 1) && decide ((Gen.ProtoSmack.ids r).length = 1)
-
-theorem rowsOk : ((List.range 189).all chkRow) = true := by decide +kernel
-
-theorem all_range {n : Nat} {P : Nat → Bool} (h : (List.range n).all P = true) {i : Nat} (hi : i < n) :
-    P i = true := by
-  rw [List.all_eq_true] at h
-  exact h i (List.mem_range.mpr hi)
-
-/-- one byte from row `r` -/
-def stepB (r : Nat) (b : UInt8) : Nat := tr r (Gen.ProtoSmack.c2s b.toNat)
-
-theorem c2s_le (b : UInt8) : Gen.ProtoSmack.c2s b.toNat ≤ 40 := by
-  have := all_range bytesOk b.toNat_lt
-  simp only [chkByte, Bool.and_eq_true, decide_eq_true_eq] at this
-  exact this.1
-
-theorem stepB_dead (b : UInt8) : stepB 1 b = 1 := by
-  have h := all_range (all_range closureOk (show 1 < 170 by decide)) (show Gen.ProtoSmack.c2s b.toNat < 41 by
-    have := c2s_le b; omega)
-  unfold stepB
-  simpa [chkCls] using h
-
-theorem stepB_closure (r : Nat) (b : UInt8) (hr : r < 170) (h1 : r ≠ 1) :
-    stepB r b = 1 ∨ (2 ≤ stepB r b ∧ stepB r b < 189 ∧ parent (stepB r b) = r ∧
-      (edge (stepB r b) = 256 ∨ edge (stepB r b) = b.toNat)) := by
-  have hc := c2s_le b
-  have h := all_range (all_range closureOk hr) (show Gen.ProtoSmack.c2s b.toNat < 41 by omega)
-  have hb := all_range bytesOk b.toNat_lt
-  simp only [chkByte, Bool.and_eq_true, Bool.or_eq_true, decide_eq_true_eq] at hb
-  simp only [chkCls, if_neg h1, decide_eq_true_eq] at h
-  unfold stepB
-  rcases h with h | ⟨h2, h3, h4, h5⟩
-  · exact .inl h
-  · refine .inr ⟨h2, h3, h4, ?_⟩
-    rcases h5 with h5 | ⟨h5, h6⟩
-    · exact .inl h5
-    · right
-      rw [h6]
-      rcases hb.2 with hb | hb
-      · exact absurd hb h5
-      · exact hb
-
-/-! ### words -/
-
-def symOf (e : Nat) : Sym := if e = 256 then .any else .lit (UInt8.ofNat e)
-
-def wordOf : Nat → Nat → List Sym
-  | 0, _ => []
-  | f + 1, r => if r = 0 then [] else wordOf f (parent r) ++ [symOf (edge r)]
-
-/-- the pattern (over literal bytes and wildcards) that leads from the start row to row `r` -/
-def word (r : Nat) : List Sym := wordOf 30 r
-
-theorem wordsOk : ((List.range 189).all fun r =>
-    decide (r < 2) || decide (edge r > 256) || decide (word r = word (parent r) ++ [symOf (edge r)])) = true := by
-  decide +kernel
-
-theorem word_step {r : Nat} (h2 : 2 ≤ r) (h : r < 189) (he : edge r ≤ 256) :
-    word r = word (parent r) ++ [symOf (edge r)] := by
-  have := all_range wordsOk h
-  simp only [Bool.or_eq_true, decide_eq_true_eq] at this
-  rcases this with (h' | h') | h'
-  · omega
-  · omega
-  · exact h'
-
-/-- `w` matches `s` exactly (same length) -/
-def exact : List Sym → Bytes → Bool
-  | [], [] => true
-  | y :: w, b :: s => symMatch y b && exact w s
-  | _, _ => false
-
-theorem exact_snoc {w : List Sym} {s : Bytes} {y : Sym} {b : UInt8} (h : exact w s = true)
-    (hy : symMatch y b = true) : exact (w ++ [y]) (s ++ [b]) = true := by
-  induction w generalizing s with
-  | nil => cases s with
-    | nil => simp [exact, hy]
-    | cons _ _ => simp [exact] at h
-  | cons y' w ih => cases s with
-    | nil => simp [exact] at h
-    | cons b' s =>
-      simp only [exact, Bool.and_eq_true] at h
-      simp only [List.cons_append, exact, Bool.and_eq_true]
-      exact ⟨h.1, ih h.2⟩
-
-theorem exact_prefix {w : List Sym} {s : Bytes} (t : Bytes) (h : exact w s = true) :
-    prefixMatch w (s ++ t) = true := by
-  induction w generalizing s with
-  | nil => simp [prefixMatch]
-  | cons y w ih => cases s with
-    | nil => simp [exact] at h
-    | cons b s =>
-      simp only [exact, Bool.and_eq_true] at h
-      simp only [List.cons_append, prefixMatch, Bool.and_eq_true]
-      exact ⟨h.1, ih h.2⟩
-
-theorem exact_length {w : List Sym} {s : Bytes} (h : exact w s = true) : w.length = s.length := by
-  induction w generalizing s with
-  | nil => cases s with
-    | nil => rfl
-    | cons _ _ => simp [exact] at h
-  | cons y w ih => cases s with
-    | nil => simp [exact] at h
-    | cons b s =>
-      simp only [exact, Bool.and_eq_true] at h
-      simp [ih h.2]
-
-theorem exact_prefix_self {w : List Sym} {s : Bytes} (h : exact w s = true) : prefixMatch w s = true := by
-  have := exact_prefix [] h
-  simpa using this
-
-/-- reached row `r` after reading exactly `pre`: dead, or `pre` matches the word of `r` -/
-def Inv (r : Nat) (pre : Bytes) : Prop := r = 1 ∨ (r < 189 ∧ edge r ≤ 256 ∧ exact (word r) pre = true)
-
-theorem inv_start : Inv 0 [] := .inr ⟨by decide, by decide +kernel, by decide +kernel⟩
-
-theorem symMatch_symOf (e : Nat) (b : UInt8) (h : e = 256 ∨ e = b.toNat) : symMatch (symOf e) b = true := by
-  rcases h with h | h
-  · subst h; rfl
-  · have hb := b.toNat_lt
-    have hne : e ≠ 256 := by omega
-    subst h
-    simp [symOf, hne, symMatch]
-
-theorem inv_step {r : Nat} {pre : Bytes} (b : UInt8) (hr : r < 170) (h : Inv r pre) :
-    Inv (stepB r b) (pre ++ [b]) := by
-  by_cases h1 : r = 1
-  · subst h1; rw [stepB_dead]; exact .inl rfl
-  · rcases h with h | ⟨_, _, hx⟩
-    · exact absurd h h1
-    · rcases stepB_closure r b hr h1 with hd | ⟨h2, h3, h4, h5⟩
-      · exact .inl hd
-      · have he : edge (stepB r b) ≤ 256 := by
-          have := b.toNat_lt
-          rcases h5 with h5 | h5 <;> omega
-        refine .inr ⟨h3, he, ?_⟩
-        rw [word_step h2 h3 he, h4]
-        exact exact_snoc hx (symMatch_symOf _ _ h5)
-
-/-! ### `inner_match` -/
-
-theorem stepB_lt (r : Nat) (b : UInt8) (hr : r < 170) : stepB r b < 189 := by
-  by_cases h1 : r = 1
-  · subst h1; rw [stepB_dead]; decide
-  · rcases stepB_closure r b hr h1 with h | h
-    · omega
-    · exact h.2.1
-
-theorem innerMatch_cons (row : Nat) (b : UInt8) (t : Bytes) (idx : Nat) (hr : row < 170) :
-    protoTbl.innerMatch row (b :: t) idx =
-      if stepB row b ≥ 170 then .ok (idx, stepB row b) else protoTbl.innerMatch (stepB row b) t (idx + 1) := by
-  have hc := c2s_le b
-  have hk : row * 2 ^ protoTbl.rowShift + protoTbl.c2s b.toNat < protoTbl.transLen := by
-    show row * 2 ^ 6 + Gen.ProtoSmack.c2s b.toNat < 189 * 2 ^ 6
-    omega
-  rw [SmackTbl.innerMatch]
-  simp only [hk, if_true]
-  rfl
-
-theorem innerMatch_spec (d : Bytes) : ∀ (row : Nat) (pre : Bytes) (idx : Nat), row < 170 → Inv row pre →
-    ∃ i row', protoTbl.innerMatch row d idx = .ok (i, row') ∧
-      ((row' < 170 ∧ i = idx + d.length ∧ Inv row' (pre ++ d)) ∨
-       (170 ≤ row' ∧ idx ≤ i ∧ i < idx + d.length ∧ Inv row' (pre ++ d.take (i - idx + 1)))) := by
-  induction d with
-  | nil =>
-    intro row pre idx hr hi
-    exact ⟨idx, row, rfl, .inl ⟨hr, by simp, by simpa using hi⟩⟩
-  | cons b t ih =>
-    intro row pre idx hr hi
-    rw [innerMatch_cons row b t idx hr]
-    have hs := inv_step b hr hi
-    by_cases hm : stepB row b ≥ 170
-    · rw [if_pos hm]
-      refine ⟨idx, _, rfl, .inr ⟨hm, Nat.le_refl _, by simp, ?_⟩⟩
-      simpa using hs
-    · rw [if_neg hm]
-      obtain ⟨i, row', he, hc⟩ := ih (stepB row b) (pre ++ [b]) (idx + 1) (by omega) hs
-      refine ⟨i, row', he, ?_⟩
-      rcases hc with ⟨h1, h2, h3⟩ | ⟨h1, h2, h3, h4⟩
-      · left
-        refine ⟨h1, by simp; omega, ?_⟩
-        simpa using h3
-      · right
-        refine ⟨h1, by omega, by simp; omega, ?_⟩
-        have e : i - idx + 1 = (i - (idx + 1) + 1) + 1 := by omega
-        rw [e, List.take_succ_cons]
-        simpa using h4
-
-/-! ### `search_next` from the base state -/
-
-theorem cnt_nomatch {r : Nat} (h : r < 170) : Gen.ProtoSmack.cnt r = 0 := by
-  have := all_range rowsOk (show r < 189 by omega)
-  simpa [chkRow, h] using this
-
-theorem cnt_match {r : Nat} (h : 170 ≤ r) (h' : r < 189) :
-    Gen.ProtoSmack.cnt r = 1 ∧ ∃ id, Gen.ProtoSmack.ids r = [id] := by
-  have := all_range rowsOk h'
-  have hn : ¬ r < 170 := by omega
-  simp only [chkRow, hn, if_false, Bool.and_eq_true, decide_eq_true_eq] at this
-  refine ⟨this.1, ?_⟩
-  match hx : Gen.ProtoSmack.ids r, this.2 with
-  | [id], _ => exact ⟨id, rfl⟩
-
-/-- `search_next` from the base state on any payload: no failure; either no match, the whole payload
-    consumed, ending in a non-match row `st` whose word matches the payload exactly (or in the dead
-    row); or a match row `st` whose word matches the first `n` bytes exactly and whose only id is returned -/
-theorem searchNext_spec (p : Bytes) :
-    (∃ st, st < 170 ∧ protoTbl.searchNext baseState p = .ok (noMatch, st, p.length) ∧ Inv st p) ∨
-    (∃ st n id, 170 ≤ st ∧ st < 189 ∧ edge st ≤ 256 ∧ protoTbl.searchNext baseState p = .ok (id, st, n) ∧
-      Gen.ProtoSmack.ids st = [id] ∧ n ≤ p.length ∧ exact (word st) (p.take n) = true) := by
-  obtain ⟨i, row, he, hc⟩ := innerMatch_spec p 0 [] 0 (by decide) inv_start
-  have e0 : baseState % 16777216 = 0 := by decide
-  have e1 : baseState / 16777216 = 0 := by decide
-  rcases hc with ⟨h1, h2, h3⟩ | ⟨h1, _, h3, h4⟩
-  · left
-    refine ⟨row, h1, ?_, by simpa using h3⟩
-    have hml : row < protoTbl.matchLen := by show row < 228; omega
-    have hcnt : protoTbl.cnt row = 0 := cnt_nomatch h1
-    unfold SmackTbl.searchNext
-    simp only [e0, e1, if_true, he, hml, hcnt, ne_eq, not_true, if_false]
-    simp at h2
-    rw [h2]
-  · right
-    have hlt : row < 189 := by
-      rcases h4 with h4 | h4
-      · omega
-      · exact h4.1
-    have hed : edge row ≤ 256 ∧ exact (word row) (p.take (i + 1)) = true := by
-      rcases h4 with h4 | h4
-      · omega
-      · simpa using h4.2
-    obtain ⟨hc1, id, hid⟩ := cnt_match h1 hlt
-    refine ⟨row, i + 1, id, h1, hlt, hed.1, ?_, hid, by simp at h3; omega, hed.2⟩
-    have hml : row < protoTbl.matchLen := by show row < 228; omega
-    have hcnt : protoTbl.cnt row = 1 := hc1
-    have hids : protoTbl.ids row = [id] := hid
-    unfold SmackTbl.searchNext
-    simp only [e0, e1, if_true, he, hml, hcnt, ne_eq]
-    simp [hml, hids]
 
 /-! ### identification -/
 
@@ -300,18 +32,6 @@ def identPats : List (List Sym × Nat × Bool) :=
 def Ident (p : Bytes) (id : Nat) : Prop :=
   ∃ e ∈ identPats, e.2.1 = id ∧ prefixMatch e.1 p = true ∧ (e.2.2 = true → e.1.length = p.length)
 
-theorem matchRowsOk : ((List.range 189).all fun st =>
-    decide (st < 170) || decide (edge st > 256) ||
-    identPats.any (fun e => !e.2.2 && (Gen.ProtoSmack.ids st == [e.2.1]) && (e.1 == word st))) = true := by
-  decide +kernel
-
-theorem endRowsOk : ((List.range 170).all fun r =>
-    decide (tr r 42 < 228) &&
-    (decide (Gen.ProtoSmack.cnt (tr r 42) = 0) ||
-     (decide (Gen.ProtoSmack.cnt (tr r 42) = 1) && decide (r ≠ 1) &&
-      identPats.any (fun e => e.2.2 && (Gen.ProtoSmack.ids (tr r 42) == [e.2.1]) && (e.1 == word r))))) = true := by
-  decide +kernel
-
 theorem identPats_ids : (identPats.all fun e => decide (1 ≤ e.2.1 ∧ e.2.1 ≤ 8)) = true := by decide +kernel
 
 theorem ident_id_range {p : Bytes} {id : Nat} (h : Ident p id) : 1 ≤ id ∧ id ≤ 8 := by
@@ -324,61 +44,130 @@ theorem ident_ne_noMatch {p : Bytes} {id : Nat} (h : Ident p id) : id ≠ noMatc
   have := ident_id_range h
   unfold noMatch; omega
 
+/-! ### the shadow-aware reference is justified by `identPats` (signature lists only, no table) -/
+
+/-- forget the exclusions of a shadow-aware symbol -/
+def toSym : SymX → Sym
+  | .lit b => .lit b
+  | .any => .any
+  | .anyExcept _ => .any
+
+theorem prefixMatch_of_X (P : List SymX) (s : Bytes) (h : prefixMatchX P s = true) :
+    prefixMatch (P.map toSym) s = true := by
+  induction P generalizing s with
+  | nil => rfl
+  | cons a t ih =>
+    cases s with
+    | nil => simp [prefixMatchX] at h
+    | cons b bs =>
+      simp only [prefixMatchX, Bool.and_eq_true] at h
+      simp only [List.map_cons, prefixMatch, Bool.and_eq_true]
+      refine ⟨?_, ih bs h.2⟩
+      cases a with
+      | lit c => exact h.1
+      | any => rfl
+      | anyExcept l => rfl
+
+theorem shadowPat_toSym : ∀ g ∈ sigs, (shadowPat g).map toSym = g.pat := by decide +kernel
+
+theorem sig_mem_identPats (g : Sig) (hg : g ∈ sigs) : (g.pat, g.id, g.endAnchored) ∈ identPats := by
+  unfold identPats
+  exact List.mem_append_left _ (List.mem_map.2 ⟨g, hg, rfl⟩)
+
+/-- the only signatures subject to the end-of-datagram quirk are the two ONC-RPC ones -/
+theorem oneShort_mem_identPats : ∀ g ∈ sigs,
+    (!g.endAnchored && decide ((shadowPat g).getLast? = some SymX.any)) = true →
+      (g.pat.dropLast, g.id, true) ∈ identPats := by decide +kernel
+
+theorem ident_of_completed {p : Bytes} {n i : Nat} (h : completedAtK2 p n = some i) : Ident p i := by
+  unfold completedAtK2 sigsK2 at h
+  rw [List.find?_map, Option.map_map] at h
+  cases hf : sigs.find? _ with
+  | none => rw [hf] at h; cases h
+  | some g =>
+    rw [hf] at h
+    simp only [Option.map_some, Function.comp, Option.some.injEq] at h
+    have hg := List.mem_of_find?_eq_some hf
+    have hp := List.find?_some hf
+    simp only [Function.comp, Bool.and_eq_true, Bool.not_eq_true', decide_eq_true_eq] at hp
+    obtain ⟨⟨⟨he, _⟩, _⟩, hpm⟩ := hp
+    refine ⟨_, sig_mem_identPats g hg, h, ?_, ?_⟩
+    · have := prefixMatch_of_X _ _ hpm
+      rwa [shadowPat_toSym g hg] at this
+    · intro hw
+      rw [he] at hw; cases hw
+
+theorem ident_of_refStream {p : Bytes} {i : Nat} (h : refStreamK2 p = some i) : Ident p i := by
+  unfold refStreamK2 at h
+  obtain ⟨n, _, hn⟩ := List.exists_of_findSome?_eq_some h
+  exact ident_of_completed hn
+
+theorem ident_of_refEnd {p : Bytes} {i : Nat} (h : refEndK2 p = some i) : Ident p i := by
+  unfold refEndK2 sigsK2 at h
+  rw [List.find?_map, Option.map_map] at h
+  cases hf : sigs.find? _ with
+  | none => rw [hf] at h; cases h
+  | some g =>
+    rw [hf] at h
+    simp only [Option.map_some, Function.comp, Option.some.injEq] at h
+    have hg := List.mem_of_find?_eq_some hf
+    have hp := List.find?_some hf
+    simp only [Function.comp, Bool.or_eq_true] at hp
+    rcases hp with hp | hp
+    · simp only [Bool.and_eq_true, decide_eq_true_eq] at hp
+      obtain ⟨⟨_, hl⟩, hpm⟩ := hp
+      refine ⟨_, sig_mem_identPats g hg, h, ?_, ?_⟩
+      · have := prefixMatch_of_X _ _ hpm
+        rwa [shadowPat_toSym g hg] at this
+      · intro _
+        rw [← C10.shadowPat_length g hg]; exact hl
+    · unfold oneShortOf at hp
+      simp only [Bool.and_eq_true, Bool.not_eq_true', decide_eq_true_eq] at hp
+      obtain ⟨⟨⟨he, hlast⟩, hl⟩, hpm⟩ := hp
+      have hmem := oneShort_mem_identPats g hg (by simp [he, hlast])
+      refine ⟨_, hmem, h, ?_, ?_⟩
+      · have := prefixMatch_of_X _ _ hpm
+        rwa [List.map_dropLast, shadowPat_toSym g hg] at this
+      · intro _
+        show g.pat.dropLast.length = p.length
+        rw [List.length_dropLast, ← C10.shadowPat_length g hg, hl]
+        omega
+
+/-! ### the compiled matcher -/
+
+/-- row `st` is reached after reading exactly `p`: its (kernel-checked) annotation is the state of the
+    shadow-aware reference after `p` -/
+def Inv (st : Nat) (p : Bytes) : Prop := C10.protoAR st = p.foldl C10.rstep sigsK2
+
 /-- **matcher soundness, stream part**: `search_next` from the base state never fails; it consumes the
     whole payload without a match, or returns an id justified by a (not end-anchored) signature
     matching a prefix of the payload -/
 theorem searchNext_sound (p : Bytes) :
-    (∃ st, st < 170 ∧ protoTbl.searchNext baseState p = .ok (noMatch, st, p.length) ∧ Inv st p) ∨
+    (∃ st, st < protoTbl.matchLimit ∧ protoTbl.searchNext baseState p = .ok (noMatch, st, p.length) ∧ Inv st p) ∨
     (∃ st n id, protoTbl.searchNext baseState p = .ok (id, st, n) ∧ Ident p id) := by
-  rcases searchNext_spec p with h | ⟨st, n, id, h1, h2, h3, h4, h5, h6, h7⟩
-  · exact .inl h
-  · right
-    refine ⟨st, n, id, h4, ?_⟩
-    have := all_range matchRowsOk h2
-    have hn1 : ¬ st < 170 := by omega
-    have hn2 : ¬ edge st > 256 := by omega
-    simp only [hn1, hn2, decide_false, Bool.false_or, List.any_eq_true, Bool.and_eq_true, Bool.not_eq_true',
-      beq_iff_eq] at this
-    obtain ⟨e, he, ⟨hk, hids⟩, hw⟩ := this
-    refine ⟨e, he, ?_, ?_, by simp [hk]⟩
-    · rw [h5] at hids; simpa using hids.symm
-    · rw [hw]
-      have := exact_prefix (p.drop n) h7
-      rwa [List.take_append_drop] at this
+  have h := C10.proto_stream_core p
+  cases hr : C10.refRun sigsK2 p with
+  | some ni =>
+    obtain ⟨n, i⟩ := ni
+    rw [hr] at h
+    obtain ⟨st, hst⟩ := h
+    obtain ⟨_, _, h3, _⟩ := C10.refRun_pos sigsK2 p C10.proto_rout_init n i hr
+    exact .inr ⟨st, n, i, hst, ident_of_completed (n := n) h3⟩
+  | none =>
+    rw [hr] at h
+    obtain ⟨row', h1, h2, h3⟩ := h
+    exact .inl ⟨row', h2, h1, h3⟩
 
 /-- **matcher soundness, end part**: `search_next_end` from a non-match row reached on the whole
     payload never fails; it returns no match, or an id justified by a whole-payload pattern -/
-theorem searchNextEnd_sound (p : Bytes) (st : Nat) (hst : st < 170) (hi : Inv st p) :
-    protoTbl.searchNextEnd st = .ok (noMatch, st) ∨
+theorem searchNextEnd_sound (p : Bytes) (st : Nat) (hst : st < protoTbl.matchLimit) (hi : Inv st p) :
+    (∃ st', protoTbl.searchNextEnd st = .ok (noMatch, st')) ∨
     (∃ id st', protoTbl.searchNextEnd st = .ok (id, st') ∧ Ident p id) := by
-  have h := all_range endRowsOk hst
-  simp only [Bool.and_eq_true, Bool.or_eq_true, decide_eq_true_eq, List.any_eq_true, beq_iff_eq] at h
-  obtain ⟨hlt, hc⟩ := h
-  have e0 : st % 16777216 = st := by omega
-  have e1 : st / 16777216 = 0 := by omega
-  have hk : st * 2 ^ protoTbl.rowShift + protoTbl.c2s charAnchorEnd = st * 64 + 42 := by
-    show st * 2 ^ 6 + Gen.ProtoSmack.c2s 257 = st * 64 + 42
-    have : Gen.ProtoSmack.c2s 257 = 42 := by decide +kernel
-    omega
-  have hk2 : st * 64 + 42 < protoTbl.transLen := by show st * 64 + 42 < 189 * 2 ^ 6; omega
-  have htr : protoTbl.trans (st * 64 + 42) = tr st 42 := rfl
-  have hml : tr st 42 < protoTbl.matchLen := hlt
-  unfold SmackTbl.searchNextEnd
-  simp only [e0, e1, show ¬ (0 = 255) by decide, if_false, ne_eq, not_true, hk, hk2, if_true, htr, hml]
-  rcases hc with hc | ⟨⟨hc1, hne1⟩, e, he, ⟨hk', hids⟩, hw⟩
-  · left
-    have : protoTbl.cnt (tr st 42) = 0 := hc
-    simp [this]
-  · right
-    have hcnt : protoTbl.cnt (tr st 42) = 1 := hc1
-    have hids' : protoTbl.ids (tr st 42) = [e.2.1] := hids
-    refine ⟨e.2.1, tr st 42, by simp [hcnt, hids'], e, he, rfl, ?_, ?_⟩
-    · rcases hi with hi | ⟨_, _, hx⟩
-      · exact absurd hi hne1
-      · rw [hw]; exact exact_prefix_self hx
-    · intro _
-      rcases hi with hi | ⟨_, _, hx⟩
-      · exact absurd hi hne1
-      · rw [hw]; exact exact_length hx
+  obtain ⟨st2, hend⟩ := C10.sim_searchNextEnd C10.proto_closed st hst
+  unfold Inv at hi
+  rw [hi, ← C10.refEndL_foldl, ← C10.refEndK2_eq] at hend
+  cases hr : refEndK2 p with
+  | none => rw [hr] at hend; exact .inl ⟨st2, hend⟩
+  | some i => rw [hr] at hend; exact .inr ⟨i, st2, hend, ident_of_refEnd hr⟩
 
 end Masscanned.C12
